@@ -457,7 +457,10 @@ def supported (p : Program) : Bool :=
     | .func _ _ _ (some c) => c == 'c'
     | _ => true) &&
   (match p.pipeline with
-   | some (es, _) => es.length == 1
+   | some ([e], _) => p.defs.any fun d => match d.kind with
+     | .func o _ _ (some 'c') => o == e
+     | _ => false
+   | some _ => false
    | none => true)
 
 end RsslVerif.Model.NamesEmit
